@@ -98,3 +98,17 @@ package podeni
 //@   # any failed delete makes the whole step fail, so the record stays and the delete is retried
 //@   ensures c10delerr ==> result != nil
 //@ # detach has the same shape: the record moves to Unbind only if every interface was detached (see guard above)
+
+//@ for C11
+//@ # binding a fixed-IP record to its (re-created) pod counts as having seen the pod: the TTL clock restarts
+//@ ghost c11fixed bool = false
+//@ ghost c11now bool = false
+//@ func ReconcilePodENI.podENICreate
+//@   at call PodENISpec.HaveFixedIP: ghost c11fixed = result
+//@   at call v1.Now: ghost c11now = true
+//@ guard call SubResourceWriter.Update in podENICreate: !c11fixed || c11now
+
+//@ for C10
+//@ # the controller writes the status of a record only with Update (optimistic concurrency): a blind patch computed from a
+//@ # stale read could move a record that was meanwhile marked Deleting / Detaching back to Bind
+//@ guard? call SubResourceWriter.Patch in podENICreate: false
